@@ -1,4 +1,4 @@
-CONSTANTS Reqs = {1,2} Notifs = {1,2,3} MaxRetries = 2 MaxTicks = 2 SendMayFail = TRUE SendMayBlock = TRUE Fix24 = TRUE Fix25 = TRUE SimDepth = 0 MayClose = TRUE
+CONSTANTS Reqs = {1,2} Notifs = {1,2} MaxRetries = 2 MaxTicks = 2 SendMayFail = TRUE SendMayBlock = TRUE Fix24 = TRUE Fix25 = TRUE SimDepth = 0 MayClose = TRUE
 INIT Init
 NEXT Next
 VIEW View
